@@ -226,6 +226,30 @@ def _splat_literal_tuples(tree: ast.AST) -> bool:
     return changed
 
 
+def _unroll_literal_loops(tree: ast.AST) -> None:
+    """`for t in (e1, e2, ..): BODY` over a literal tuple / list written at the loop head (at most 8 elements, no break / continue /
+    else) is `t = e1; BODY; t = e2; BODY; ..` - the rules then see each instance of the body with its own element."""
+    import copy as _copy
+
+    class T(ast.NodeTransformer):
+        def visit_For(self, n):
+            self.generic_visit(n)
+            it = n.iter
+            if not (isinstance(it, (ast.Tuple, ast.List)) and 1 <= len(it.elts) <= 8 and not n.orelse and not any(isinstance(e, ast.Starred) for e in it.elts)):
+                return n
+            if any(isinstance(x, (ast.Break, ast.Continue, ast.Return, ast.FunctionDef, ast.Lambda, ast.Yield, ast.YieldFrom)) for b in n.body for x in ast.walk(b)):
+                return n
+            if sum(1 for b in n.body for _ in ast.walk(b)) > 400:
+                return n
+            out = []
+            for e in it.elts:
+                out.append(ast.copy_location(ast.Assign(targets=[_copy.deepcopy(n.target)], value=e), n))
+                out += [_copy.deepcopy(b) for b in n.body]
+            return out
+    T().visit(tree)
+    ast.fix_missing_locations(tree)
+
+
 def _count_loops(tree: ast.AST) -> None:
     """`for k in itertools.count(s): BODY` is `k = s; while True: BODY; k += 1` with the increment also before every `continue` of
     that loop (the rules read the iteration counter of the solve loop as an explicit counter)."""
@@ -587,6 +611,7 @@ class Program:
                     tree = ast.parse(src, filename=path)
                 except SyntaxError as e:
                     raise AnalysisError(f"cannot parse {path}: {e}")
+                _unroll_literal_loops(tree)
                 tree = _SplitTupleAssign().visit(tree)
                 _splat_literal_dicts(tree)
                 _splat_literal_tuples(tree)
